@@ -37,9 +37,9 @@ func graphs() []map[string][]*triple.Triple {
 	gs := [][]*triple.Triple{
 		{T(a, p, model.ON(b))},
 		{T(a, p, model.ON(b)), T(b, p, model.ON(c)), T(c, p, model.ON(a))},
-		{T(a, p, model.ON(b)), T(a, p1, model.ON(b)), T(a, p2, model.ON(b)), T(b, p1, model.ON(c)), T(a, bqlm.QT2, model.ON(b))},
+		{T(a, p, model.ON(b)), T(a, p1, model.ON(b)), T(a, p2, model.ON(b)), T(b, bqlm.PT1Z, model.ON(c)), T(a, bqlm.QT2, model.ON(b))}, // one instant stored in two zones
 		{T(a, p, model.OL(bqlm.LInt)), T(a, q, model.OL(bqlm.LInt)), T(c, p, model.OL(bqlm.LText)), T(c, p, model.ON(b))},
-		{T(a, q, model.OP(p1)), T(a, p1, model.ON(b)), T(c, q, model.OP(p)), T(a, p, model.ON(c))},
+		{T(a, q, model.OP(bqlm.PT1Z)), T(a, p1, model.ON(b)), T(c, q, model.OP(p)), T(a, p, model.ON(c))},
 		{T(a, p, model.ON(a)), T(c, p, model.ON(c)), T(a, p1, model.ON(c)), T(a, p, model.ON(b)), T(a, p, model.ON(c))}, // duplicates on the join key
 		{T(a, p, model.ON(b)), T(a, p, model.OL(bqlm.LInt)), T(a, p, model.OP(p1)), T(b, p1, model.OP(p2))},
 		bqlm.Universe8(),
